@@ -116,6 +116,9 @@ PROPS = {
     "C03": entry("C03", ["c03_not_ready_with_deps", "c03_restart", "depClosed_iff", "c03_compute_only_ready", "c03_compute_only_ready_run",
                          "c03_consumers_waiting_reachable"],
                  [core(["msg", "t", "q", "cb"], ["c03.", "core.hyp"]), job(["ev", "resp", "tasks"], ["c03.", "c10.emit"]),
+                  # scenario 6: a task with three dependencies of which the first has finished, another consumer of the last one;
+                  # every action sequence to depth 4 (quick) / 6 (thorough)
+                  exhaust("core", ["msg", "t", "q", "cb"], ["c03.", "core.hyp"], qd=4, td=6, scenario=6),
                   # restart clause: journals persisted by the REAL server in simulated runs (kind sim) and generated ones,
                   # restored at every record boundary by the real StateRestorer; monitor c03.restart
                   {"component": "journal", "driver": "hqm-journal", "tags": ["res", "sub", "adj", "prod"], "clauses": ["c03.restart"],
@@ -131,7 +134,12 @@ PROPS = {
                          "c05_resinv_reachable'", "c05_free_le_total'", "c05_worker_task_wf'", "c03_compute_only_ready_run'",
                          "c03_consumers_waiting_reachable'", "c05_queue_reuse_witness", "c05_queue_stale_witness",
                          "c05_queue_dup_dep_witness"],
-                 [core(["msg", "w", "rd", "t", "q"], ["c05.", "core.hyp"])],
+                 [core(["msg", "w", "rd", "t", "q"], ["c05.", "core.hyp"]),
+                  # scenarios 7-9: one group of three workers, the first / second / third of them too short-lived for the time request
+                  # of two-node tasks that arrive later; every action sequence to depth 3 (quick) / 5 (thorough)
+                  exhaust("core", ["msg", "w", "rd", "t", "q"], ["c05.", "core.hyp"], qd=3, td=5, scenario=7),
+                  exhaust("core", ["msg", "w", "rd", "t", "q"], ["c05.", "core.hyp"], qd=3, td=5, scenario=8),
+                  exhaust("core", ["msg", "w", "rd", "t", "q"], ["c05.", "core.hyp"], qd=3, td=5, scenario=9)],
                  ["c05_inv_partial / c05_resinv_reachable: the resource equation free + sum(reserved) = total is an inductive invariant of EVERY "
                   "operation of the core model under decidable side conditions (StepHyp: fresh worker record, request names a resource once, "
                   "Reject comes from the assigned worker, SolMnOk for a scheduling round; the queue/dependency clause QueueOkD and the redirect clause RdIn are "
